@@ -296,6 +296,65 @@ fn run_search(case: &Sx) -> Sx {
     }
 }
 
+// ---- leg "entry": the real CacheWrite -> bytes -> CacheRead path on members of every size / compressibility class
+fn lcg_chunks(x0: u64, chunks: &[(u64, u64)]) -> Vec<u8> {
+    let mut x = x0;
+    let mut out = Vec::new();
+    for &(kind, n) in chunks {
+        for i in 0..n {
+            out.push(match kind {
+                0 => {
+                    x = (x.wrapping_mul(1103515245).wrapping_add(12345)) & 0x7fff_ffff;
+                    ((x >> 16) & 255) as u8
+                }
+                1 => 0u8,
+                _ => (97 + i % 7) as u8,
+            });
+        }
+    }
+    out
+}
+
+fn ck(bytes: &[u8]) -> u64 {
+    bytes.iter().fold(0u64, |s, b| (s * 31 + *b as u64) & 0xffff_ffff)
+}
+
+fn run_entry(case: &Sx) -> Sx {
+    use sccache::verif_hooks::cache::{CacheRead, CacheWrite};
+    let mode = case.arg(0).u64() as u32;
+    let chunks: Vec<(u64, u64)> = case.arg(1).list().iter().map(|c| (c.arg(0).u64(), c.arg(1).u64())).collect();
+    let obj = lcg_chunks(12345, &chunks);
+    let so = lcg_chunks(777, &[(0, case.arg(2).u64())]);
+    let se = lcg_chunks(888, &[(0, case.arg(3).u64())]);
+    let r = catch(|| -> Result<(Option<u32>, Vec<u8>, Vec<u8>, Vec<u8>), String> {
+        let mut w = CacheWrite::new();
+        w.put_object("obj", &mut std::io::Cursor::new(&obj[..]), Some(mode)).map_err(|e| e.to_string())?;
+        w.put_stdout(&so).map_err(|e| e.to_string())?;
+        w.put_stderr(&se).map_err(|e| e.to_string())?;
+        let bytes = w.finish().map_err(|e| e.to_string())?;
+        let mut rd = CacheRead::from(std::io::Cursor::new(bytes)).map_err(|e| e.to_string())?;
+        let mut back = Vec::new();
+        let m = rd.get_object("obj", &mut back).map_err(|e| e.to_string())?;
+        let o = rd.get_stdout().map_err(|e| e.to_string())?;
+        let e = rd.get_stderr().map_err(|e| e.to_string())?;
+        Ok((m, back, o, e))
+    });
+    match r {
+        Ok(Ok((m, back, o, e))) => Sx::L(vec![
+            Sx::sym("ok"),
+            Sx::n(m.unwrap_or(0) as u64 & 0o7777),
+            Sx::n(back.len() as u64),
+            Sx::n(ck(&back)),
+            Sx::n(o.len() as u64),
+            Sx::n(ck(&o)),
+            Sx::n(e.len() as u64),
+            Sx::n(ck(&e)),
+        ]),
+        Ok(Err(msg)) => Sx::L(vec![Sx::sym("error"), Sx::B(msg.into_bytes())]),
+        Err(_) => Sx::L(vec![Sx::sym("panic")]),
+    }
+}
+
 fn main() {
     vh::quiet_panics();
     let leg = std::env::args().nth(1).unwrap_or_default();
@@ -303,6 +362,7 @@ fn main() {
     vh::run_lines(|case| match leg.as_str() {
         "parse" => run_parse(case),
         "search" => run_search(case),
+        "entry" => run_entry(case),
         _ => Sx::L(vec![Sx::sym("unknown_leg")]),
     });
 }
